@@ -613,7 +613,7 @@ func c06Asserts(c *c06ctx) {
 				if st == nil {
 					continue
 				}
-				for _, g := range core.WithClosures(st) {
+				for _, g := range unitFuncs(st) {
 					for _, b := range g.Blocks {
 						for _, in := range b.Instrs {
 							ta, ok := in.(*ssa.TypeAssert)
